@@ -4,7 +4,7 @@
    output-splitting policy and every failure mode; hence every graph the harness can build
    ([compile_sprog]) is [prog_ok]. *)
 From Eino Require Import Base.Util Model.Paradigm Model.StreamOps Model.ParadigmProg
-  Model.ParadigmSpec Proofs.Paradigm Proofs.ParadigmOps Proofs.ParadigmProg.
+  Model.ParadigmSpec Proofs.Paradigm Proofs.ParadigmOps Proofs.ParadigmFieldMap Proofs.ParadigmProg.
 From Coq Require Import Lia.
 
 Local Infix "+++" := String.append (at level 60, right associativity).
@@ -27,31 +27,6 @@ Lemma split_str_nonnil pol s : split_str pol s <> [].
 Proof. unfold split_str. destruct pol as [|[[p|p|]|[p|p|]|]]; discriminate. Qed.
 
 (* ------------------------------------------------------------------ canonical maps *)
-Lemma ins_last k v acc : (forall k', In k' (mkeys acc) -> (k' < k)%N) -> ins k v acc = acc ++ [(k, v)].
-Proof.
-  induction acc as [|[k2 v2] acc IH]; simpl; intros H; auto.
-  assert (k2 < k)%N by (apply H; auto).
-  destruct (N.ltb_spec k k2); [lia|]. destruct (N.eqb_spec k k2); [lia|].
-  rewrite IH; auto.
-Qed.
-
-Lemma ins_all_sorted_app m : sorted m -> forall acc,
-  (forall a b, In a (mkeys acc) -> In b (mkeys m) -> (a < b)%N) -> ins_all m acc = acc ++ m.
-Proof.
-  induction 1 as [|k v m Hs IH Hlt]; intros acc Hacc.
-  - rewrite app_nil_r. reflexivity.
-  - rewrite ins_all_cons. cbn [fst snd].
-    rewrite ins_last by (intros k' Hk'; apply Hacc; simpl; auto).
-    rewrite IH.
-    + rewrite <- app_assoc. reflexivity.
-    + intros a b Ha Hb. unfold mkeys in Ha. rewrite map_app in Ha. apply in_app_or in Ha as [Ha|Ha].
-      * apply Hacc; simpl; auto.
-      * simpl in Ha. destruct Ha as [<-|[]]. apply Hlt, Hb.
-Qed.
-
-Lemma ins_all_sorted m : sorted m -> ins_all m [] = m.
-Proof. intros H. apply (ins_all_sorted_app m H []). intros a b []. Qed.
-
 Lemma mval_sorted ms : sorted (List.concat ms) -> mval ms = List.concat ms.
 Proof.
   destruct ms as [|a [|b r]]; intros H.
@@ -60,7 +35,7 @@ Proof.
   - unfold mval. apply ins_all_sorted, H.
 Qed.
 
-Definition halves (e : N * string) : amap :=
+Definition halves (e : tkey * string) : amap :=
   let h := (String.length (snd e) / 2)%nat in [(fst e, stake h (snd e)); (fst e, sdrop h (snd e))].
 
 Lemma ins_all_halves m acc : ins_all (flat_map halves m) acc = ins_all m acc.
@@ -100,8 +75,43 @@ Proof.
     rewrite mval_sorted; rewrite concat_singletons_gen; auto.
 Qed.
 
+(* the chunks of a split hold the keys of the map, no others *)
+Lemma split_map_keys pol m key :
+  In key (mkeys (List.concat (split_map pol m))) <-> In key (mkeys m).
+Proof.
+  unfold split_map.
+  destruct pol as [|[[p|p|]|[p|p|]|]]; try (simpl; rewrite ?app_nil_r; reflexivity).
+  - (* 2 *) destruct m as [|e m]; [simpl; reflexivity|].
+    rewrite concat_flat_halves. generalize (e :: m). clear. intros m.
+    induction m as [|e m IH]; [reflexivity|]. cbn [flat_map halves app mkeys map fst].
+    unfold mkeys in IH. simpl. rewrite IH. intuition.
+  - (* 1 *) destruct m as [|e m]; [simpl; reflexivity|]. rewrite concat_singletons_gen. reflexivity.
+Qed.
+
+Lemma mok_keys ms m : (forall key, In key (mkeys (List.concat ms)) <-> In key (mkeys m)) ->
+  mcons m = true -> mok ms = true.
+Proof.
+  intros Hk Hc. destruct ms as [|a [|b ms]]; [|reflexivity|].
+  - unfold mok. rewrite mcons_canon. simpl. reflexivity.
+  - unfold mok. rewrite mcons_canon. rewrite (mcons_keys _ m Hk). exact Hc.
+Qed.
+
+Lemma split_map_mok pol m : mcons m = true -> mok (split_map pol m) = true.
+Proof. apply mok_keys. intros key. apply split_map_keys. Qed.
+
+(* chunks whose values are all strings concatenate *)
+Lemma mok_flat ms : (forall m, In m ms -> flat_keys (mkeys m)) -> mok ms = true.
+Proof.
+  intros H. destruct ms as [|a [|b ms]]; [| reflexivity|].
+  - unfold mok. rewrite mcons_canon. reflexivity.
+  - unfold mok. rewrite mcons_canon. apply mcons_spec, flat_Cons.
+    intros key Hk. unfold mkeys in Hk. apply in_map_iff in Hk as (e & <- & He).
+    apply in_concat in He as (m & Hm & He). apply (H m Hm). unfold mkeys. apply in_map, He.
+Qed.
+
 (* ------------------------------------------------------------------ emit *)
-Definition canon (y : val) : Prop := match y with VS _ => True | VM m => sorted m end.
+Definition canon (y : val) : Prop :=
+  match y with VS _ => True | VM m => sorted m /\ mcons m = true end.
 
 Lemma map_Val_VS ss : map Val (map VS ss) = sVS ss.
 Proof. symmetry. apply sVS_vals. Qed.
@@ -118,26 +128,33 @@ Lemma split_val_concat pol y : canon y -> vsconcat (map Val (split_val pol y)) =
 Proof.
   destruct y as [s|m]; simpl; intros Hc.
   - rewrite map_Val_VS, vsconcat_sVS by apply split_str_nonnil. rewrite split_str_concat. reflexivity.
-  - rewrite map_Val_VM, vsconcat_sVM by apply split_map_nonnil. rewrite split_map_mval; auto.
+  - destruct Hc as (Hs & Hc).
+    rewrite map_Val_VM, vsconcat_sVM_ok; [|apply split_map_nonnil|apply split_map_mok, Hc].
+    rewrite split_map_mval; auto.
+Qed.
+
+Lemma flat_pair k1 v1 k2 v2 : flat_keys (mkeys (ins_all [(kstr k1, v1); (kstr k2, v2)] [])).
+Proof.
+  intros key Hk. apply (proj1 (keys_ins_all0 _ _)) in Hk. simpl in Hk. destruct Hk as [<-|[<-|[]]]; reflexivity.
 Qed.
 
 Lemma f_spec_canon sp x y : f_spec sp x = Ok y -> canon y.
 Proof.
   unfold f_spec.
   destruct (ns_kind sp) as [|[[p|p|]|[p|p|]|]], x; try discriminate; intros H; inversion H; simpl; auto.
-  - repeat constructor. intros ? [].
-  - apply sorted_ins_all. constructor.
+  - split; [repeat constructor; intros ? []|apply mcons_single].
+  - split; [apply sorted_ins_all; constructor|apply mcons_spec, flat_Cons, flat_pair].
 Qed.
 
-Lemma vsconcat_bad s e : In (Bad e) s -> failed (vsconcat s).
-Proof. intros H. unfold vsconcat, sconcat. apply failed_bind. eapply vals_of_bad; eauto. Qed.
+Lemma vsconcat_bad_in s e : In (Bad e) s -> failed (vsconcat s).
+Proof. intros H. apply vsconcat_bad. exists e. exact H. Qed.
 
 Lemma emit_ok sp y : N.eqb (ns_fail sp) 2 = false -> canon y -> vsconcat (emit sp y) = Ok y.
 Proof. intros Hf Hc. unfold emit. rewrite Hf. apply split_val_concat, Hc. Qed.
 
 Lemma emit_fails sp y : N.eqb (ns_fail sp) 2 = true -> failed (vsconcat (emit sp y)).
 Proof.
-  intros Hf. unfold emit. rewrite Hf. apply (vsconcat_bad _ e_node).
+  intros Hf. unfold emit. rewrite Hf. apply (vsconcat_bad_in _ e_node).
   apply in_or_app. right. left. reflexivity.
 Qed.
 
@@ -184,7 +201,7 @@ Section Live.
     match it with
     | Val (VS c) => match ns_kind sp with
                     | 0%N => Val (VS c)
-                    | _ => Val (VM (ins_all [(ns_k1 sp, c); (ns_k2 sp, c)] []))
+                    | _ => Val (VM (ins_all [(kstr (ns_k1 sp), c); (kstr (ns_k2 sp), c)] []))
                     end
     | Val (VM _) => Bad e_type
     | Bad e => Bad e
@@ -194,11 +211,11 @@ Section Live.
     live_T sp s =
     let pre := match ns_kind sp with
                | 0%N => VS (ns_tag sp +++ "("%string)
-               | _ => VM [(ns_k1 sp, ns_tag sp +++ "<"%string)]
+               | _ => VM [(kstr (ns_k1 sp), ns_tag sp +++ "<"%string)]
                end in
     let suf := match ns_kind sp with
                | 0%N => VS ")"%string
-               | _ => VM [(ns_k2 sp, ">"%string)]
+               | _ => VM [(kstr (ns_k2 sp), ">"%string)]
                end in
     let (r, b) := upto_bad (map fw s) in Val pre :: r ++ (if b then [] else [Val suf]).
   Proof. unfold live_T. rewrite Hfail. reflexivity. Qed.
@@ -214,7 +231,20 @@ Section Live.
       - exists e_type. apply (in_map fw) in Hin. exact Hin.
       - exists e. apply (in_map fw) in Hin. exact Hin. }
     destruct Hb as (e & Hb). destruct (upto_bad_bad _ _ Hb) as (r & e' & -> & Hr).
-    apply (vsconcat_bad _ e'). right. apply in_or_app. left. exact Hr.
+    apply (vsconcat_bad_in _ e'). right. apply in_or_app. left. exact Hr.
+  Qed.
+
+  Lemma live_T_bad_input_bad s it :
+    In it s -> (forall c, it <> Val (VS c)) -> has_bad (live_T sp s).
+  Proof.
+    intros Hin Hn. rewrite live_T_eq. cbv zeta.
+    assert (Hb : exists e, In (Bad e) (map fw s)).
+    { destruct it as [[c|m]|e].
+      - exfalso. eapply Hn; reflexivity.
+      - exists e_type. apply (in_map fw) in Hin. exact Hin.
+      - exists e. apply (in_map fw) in Hin. exact Hin. }
+    destruct Hb as (e & Hb). destruct (upto_bad_bad _ _ Hb) as (r & e' & -> & Hr).
+    exists e'. right. apply in_or_app. left. exact Hr.
   Qed.
 
   Lemma f_spec_not_strings s it x :
@@ -222,7 +252,7 @@ Section Live.
     In it s -> (forall c, it <> Val (VS c)) -> vsconcat s = Ok x -> failed (f_spec sp x).
   Proof.
     intros Hk Hin Hn E.
-    apply vsconcat_ok in E as [(ss & _ & -> & _)|(ms & _ & -> & ->)].
+    apply vsconcat_ok in E as [(ss & _ & -> & _)|(ms & _ & -> & -> & _)].
     - exfalso. apply in_sVS in Hin as (a & ->). eapply Hn; reflexivity.
     - unfold f_spec. destruct Hk as [-> | ->]; apply failed_Err.
   Qed.
@@ -246,16 +276,16 @@ Section Live.
     fold (concat_strings cs). rewrite !app_assoc_s. reflexivity.
   Qed.
 
-  Definition pair_entries (c : string) : amap := [(ns_k1 sp, c); (ns_k2 sp, c)].
+  Definition pair_entries (c : string) : amap := [(kstr (ns_k1 sp), c); (kstr (ns_k2 sp), c)].
 
   Lemma ins_pairs cs : ns_k1 sp <> ns_k2 sp -> forall x y,
-    ins_all (flat_map pair_entries cs) (ins (ns_k2 sp) y (ins (ns_k1 sp) x []))
-    = ins (ns_k2 sp) (y +++ concat_strings cs) (ins (ns_k1 sp) (x +++ concat_strings cs) []).
+    ins_all (flat_map pair_entries cs) (ins (kstr (ns_k2 sp)) y (ins (kstr (ns_k1 sp)) x []))
+    = ins (kstr (ns_k2 sp)) (y +++ concat_strings cs) (ins (kstr (ns_k1 sp)) (x +++ concat_strings cs) []).
   Proof.
     intros Hne. induction cs as [|c cs IH]; intros x y.
     - unfold concat_strings. simpl. rewrite !app_nil_r_s. reflexivity.
     - cbn [flat_map pair_entries app]. rewrite !ins_all_cons. cbn [fst snd].
-      rewrite (ins_comm (ns_k1 sp) c (ns_k2 sp) y) by exact Hne.
+      rewrite (ins_comm (kstr (ns_k1 sp)) c (kstr (ns_k2 sp)) y) by (unfold kstr; congruence).
       rewrite ins_same, ins_same, IH.
       unfold concat_strings. cbn [fold_right]. rewrite !app_assoc_s. reflexivity.
   Qed.
@@ -272,7 +302,7 @@ Section Live.
     vsconcat (live_T sp (sVS cs)) = res_bind (vsconcat (sVS cs)) (f_spec sp).
   Proof.
     intros Hk Hne Hcs. rewrite live_T_eq, Hk. cbv zeta.
-    set (k1 := ns_k1 sp) in *. set (k2 := ns_k2 sp) in *.
+    set (k1 := kstr (ns_k1 sp)) in *. set (k2 := kstr (ns_k2 sp)) in *.
     assert (E : map fw (sVS cs) = map Val (map VM (map (fun c => ins_all (pair_entries c) []) cs))).
     { unfold sVS. rewrite !map_map. apply map_ext. intros c. unfold fw. rewrite Hk. reflexivity. }
     rewrite E, upto_bad_vals.
@@ -280,7 +310,12 @@ Section Live.
     change (Val (VM [(k1, ns_tag sp +++ "<")]) :: map Val (map VM mid) ++ [Val (VM [(k2, ">"%string)])])
       with (map Val (map VM ([(k1, ns_tag sp +++ "<"%string)] :: mid)) ++ map Val (map VM [[(k2, ">"%string)]])).
     rewrite <- !map_app, map_Val_VM.
-    rewrite vsconcat_sVM by discriminate.
+    rewrite vsconcat_sVM_ok; [|discriminate|].
+    2:{ apply mok_flat. intros m Hm. cbn [app] in Hm. destruct Hm as [<-|Hm].
+        - intros key [<-|[]]. reflexivity.
+        - apply in_app_or in Hm as [Hm|[<-|[]]].
+          + unfold mid in Hm. apply in_map_iff in Hm as (c & <- & _). apply flat_pair.
+          + intros key [<-|[]]. reflexivity. }
     rewrite vsconcat_sVS by exact Hcs. cbn [res_bind]. unfold f_spec. rewrite Hk.
     do 2 f_equal.
     destruct cs as [|c cs]; [congruence|].
@@ -368,9 +403,9 @@ Proof.
     assert (Hf2 : N.eqb (ns_fail sp) 2 = true) by (rewrite Hf; reflexivity).
     apply agree_failed; [|apply failed_spec_fun_bind; rewrite Hf; reflexivity].
     destruct (is_live sp); rewrite vsconcatR_Ok.
-    + unfold live_T. rewrite Hf2. apply (vsconcat_bad _ e_node). right. left. reflexivity.
-    + destruct (vsconcat st) as [x| |]; try (eapply vsconcat_bad; left; reflexivity).
-      destruct (f_spec sp x) as [y| |]; try (eapply vsconcat_bad; left; reflexivity).
+    + unfold live_T. rewrite Hf2. apply (vsconcat_bad_in _ e_node). right. left. reflexivity.
+    + destruct (vsconcat st) as [x| |]; try (eapply vsconcat_bad_in; left; reflexivity).
+      destruct (f_spec sp x) as [y| |]; try (eapply vsconcat_bad_in; left; reflexivity).
       apply emit_fails, Hf2.
 Qed.
 
@@ -433,27 +468,52 @@ Proof.
   destruct (ns_I sp), (ns_S sp), (ns_C sp), (ns_T sp); simpl in *; auto.
 Qed.
 
-Lemma spec_nonempty sp : node_nonempty (node_of_spec sp).
+Lemma emit_sound sp y : canon y -> sound (emit sp y).
 Proof.
-  constructor.
+  intros Hc. destruct (N.eqb (ns_fail sp) 2) eqn:Hf.
+  - left. exists e_node. unfold emit. rewrite Hf. apply in_or_app. right. left. reflexivity.
+  - right. exists y. apply emit_ok; auto.
+Qed.
+
+Lemma live_T_sound sp s : spec_wf sp = true -> ns_T sp = true -> is_live sp = true -> s <> [] ->
+  sound (live_T sp s).
+Proof.
+  intros Hwf HT HL Hs. destruct (N.eqb (ns_fail sp) 2) eqn:Hf.
+  - left. exists e_node. unfold live_T. rewrite Hf. right. left. reflexivity.
+  - destruct (stream_shape s) as [(cs & ->)|(it & Hin & Hn)].
+    + assert (Hcs : cs <> []) by (destruct cs; [exfalso; apply Hs; reflexivity|discriminate]).
+      right.
+      destruct (spec_wf_live sp Hwf HT HL) as [Hk|(Hk & Hne)].
+      * rewrite (live_T_kind0 sp Hf cs Hk Hcs), vsconcat_sVS by exact Hcs. cbn [res_bind].
+        unfold f_spec. rewrite Hk. eauto.
+      * rewrite (live_T_kind2 sp Hf cs Hk Hne Hcs), vsconcat_sVS by exact Hcs. cbn [res_bind].
+        unfold f_spec. rewrite Hk. eauto.
+    + left. eapply live_T_bad_input_bad; eauto.
+Qed.
+
+Lemma spec_nonempty sp : spec_wf sp = true -> node_nonempty (node_of_spec sp).
+Proof.
+  intros Hwf. constructor.
   - intros f Ef x o. unfold node_of_spec in Ef. cbn [nS] in Ef. destruct (ns_S sp); [|discriminate].
     inversion Ef. destruct (N.eqb (ns_fail sp) 1); [discriminate|].
-    destruct (f_spec sp x); cbn [res_bind]; try discriminate.
-    intros H. inversion H. apply emit_nonnil.
-  - intros f Ef s o _. unfold node_of_spec in Ef. cbn [nT] in Ef. destruct (ns_T sp); [|discriminate].
+    destruct (f_spec sp x) eqn:Ey; cbn [res_bind]; try discriminate.
+    intros H. inversion H. split; [apply emit_nonnil|eapply emit_sound, f_spec_canon; eauto].
+  - intros f Ef s o Hs _. unfold node_of_spec in Ef. cbn [nT] in Ef. destruct (ns_T sp) eqn:HT; [|discriminate].
     inversion Ef. destruct (N.eqb (ns_fail sp) 1); [discriminate|].
-    destruct (is_live sp).
-    + intros H. inversion H. unfold live_T.
-      destruct (N.eqb (ns_fail sp) 2); [discriminate|].
-      destruct (upto_bad _). discriminate.
+    destruct (is_live sp) eqn:HL.
+    + intros H. inversion H. split.
+      * unfold live_T. destruct (N.eqb (ns_fail sp) 2); [discriminate|].
+        destruct (upto_bad _). discriminate.
+      * apply live_T_sound; auto.
     + intros H. inversion H.
-      destruct (vsconcat s); try discriminate.
-      destruct (f_spec sp a); try discriminate. apply emit_nonnil.
+      destruct (vsconcat s); try (split; [discriminate|left; eexists; left; reflexivity]).
+      destruct (f_spec sp a) eqn:Ey; try (split; [discriminate|left; eexists; left; reflexivity]).
+      split; [apply emit_nonnil|eapply emit_sound, f_spec_canon; eauto].
 Qed.
 
 Theorem spec_node_ok sp : spec_wf sp = true -> node_ok (node_of_spec sp).
 Proof.
-  intros H. split; [apply spec_has_any, H|]. split; [apply spec_nonempty|].
+  intros H. split; [apply spec_has_any, H|]. split; [apply spec_nonempty, H|].
   exists (spec_fun sp). apply spec_consistent, H.
 Qed.
 
@@ -576,7 +636,7 @@ Lemma fanin_dupkey_refuted_lem :
   /\ dom_ok (compile_sprog dupkey_prog) (VS "x"%string) = false
   /\ g_invoke (compile_sprog dupkey_prog) (VS "x"%string) = Err e_dupkey
   /\ vsconcatR (g_stream seq_mrg (compile_sprog dupkey_prog) (VS "x"%string))
-     = Ok (VM [(5%N, "n3{aa=n1(x)n2(x);}"%string)])
+     = Ok (VM [(kstr 5, "n3{aa=n1(x)n2(x);}"%string)])
   /\ ~ agree (vsconcatR (g_stream seq_mrg (compile_sprog dupkey_prog) (VS "x"%string)))
              (g_invoke (compile_sprog dupkey_prog) (VS "x"%string)).
 Proof. vm_compute. repeat split; auto. Qed.
@@ -584,12 +644,12 @@ Proof. vm_compute. repeat split; auto. Qed.
 (* F-C04b *)
 Lemma inkey_missing_refuted_lem :
   sprog_wf nokey_prog = true
-  /\ dom_ok (compile_sprog nokey_prog) (VM [(0%N, "v"%string)]) = false
-  /\ g_invoke (compile_sprog nokey_prog) (VM [(0%N, "v"%string)]) = Err e_nokey
-  /\ vsconcatR (g_stream seq_mrg (compile_sprog nokey_prog) (VM [(0%N, "v"%string)]))
+  /\ dom_ok (compile_sprog nokey_prog) (VM [(kstr 0, "v"%string)]) = false
+  /\ g_invoke (compile_sprog nokey_prog) (VM [(kstr 0, "v"%string)]) = Err e_nokey
+  /\ vsconcatR (g_stream seq_mrg (compile_sprog nokey_prog) (VM [(kstr 0, "v"%string)]))
      = Ok (VS "n1()"%string)
-  /\ ~ agree (vsconcatR (g_stream seq_mrg (compile_sprog nokey_prog) (VM [(0%N, "v"%string)])))
-             (g_invoke (compile_sprog nokey_prog) (VM [(0%N, "v"%string)])).
+  /\ ~ agree (vsconcatR (g_stream seq_mrg (compile_sprog nokey_prog) (VM [(kstr 0, "v"%string)])))
+             (g_invoke (compile_sprog nokey_prog) (VM [(kstr 0, "v"%string)])).
 Proof. vm_compute. repeat split; auto. Qed.
 
 (* non-vacuity of the agreement theorem: a graph with fan-out, fan-in, derived views and a
@@ -599,7 +659,7 @@ Lemma mixed_prog_in_domain :
   /\ vsconcat (map Val [VS "ab"%string; VS "c"%string]) = Ok (VS "abc"%string)
   /\ dom_ok (compile_sprog mixed_prog) (VS "abc"%string) = true
   /\ g_invoke (compile_sprog mixed_prog) (VS "abc"%string)
-     = Ok (VM [(2%N, "n6<n3{aa=n1(abc);ab=n2(abc);}"%string); (3%N, "n3{aa=n1(abc);ab=n2(abc);}>"%string)])
+     = Ok (VM [(kstr 2, "n6<n3{aa=n1(abc);ab=n2(abc);}"%string); (kstr 3, "n3{aa=n1(abc);ab=n2(abc);}>"%string)])
   /\ vsconcatR (g_transform seq_mrg (compile_sprog mixed_prog) (map Val [VS "ab"%string; VS "c"%string]))
      = g_invoke (compile_sprog mixed_prog) (VS "abc"%string).
 Proof. vm_compute. repeat split. Qed.
@@ -657,3 +717,33 @@ Lemma multi_prog_in_domain :
   /\ vsconcatR (g_transform seq_mrg (compile_sprog multi_prog) (map Val [VS "a"%string; VS "b"%string]))
      = g_invoke (compile_sprog multi_prog) (VS "ab"%string).
 Proof. vm_compute. repeat split. Qed.
+
+(* non-vacuity with nested maps (an output key around map producers, an input key that reads
+   the nested map, two levels of nesting) *)
+Lemma nested_prog_in_domain :
+  sprog_wf nested_prog = true
+  /\ dom_ok (compile_sprog nested_prog) (VS "ab"%string) = true
+  /\ g_invoke (compile_sprog nested_prog) (VS "ab"%string)
+     = Ok (VS "n5{ac=n3{af=n1<ab;ag=ab>;};ad/;ad.ah=n4{aa/;aa.af=n1<ab;aa.ag=ab>;ab=n2(ab);};}"%string)
+  /\ vsconcatR (g_transform seq_mrg (compile_sprog nested_prog) (map Val [VS "a"%string; VS "b"%string]))
+     = g_invoke (compile_sprog nested_prog) (VS "ab"%string).
+Proof. vm_compute. repeat split. Qed.
+
+(* chunks that hold a string and a map under the same key do not concatenate (concatMaps:
+   "unexpected slice element type"); a stream of such chunks is not sound, and on it the
+   input-key filter (which never looks at the other keys) succeeds where the value form
+   fails: why the operation-level theorems ask for sound streams *)
+Definition clash_stream : stream val :=
+  [Val (VM [(kstr 0, "a"%string); (kstr 1, "x"%string)]);
+   Val (VM [(kstr 0, "b"%string); ((1%N, KMap), EmptyString)])].
+
+Lemma unsound_stream_witness :
+  vsconcat clash_stream = Err e_type
+  /\ ~ sound clash_stream
+  /\ vsconcat (s_keyFilter 0 clash_stream) = Ok (VS "ab"%string)
+  /\ ~ agree (vsconcat (s_keyFilter 0 clash_stream)) (res_bind (vsconcat clash_stream) (v_getKey 0)).
+Proof.
+  split; [reflexivity|]. split; [|split; [reflexivity|]].
+  - intros [(e & [H|[H|[]]])|(v & H)]; discriminate.
+  - vm_compute. auto.
+Qed.
